@@ -87,6 +87,16 @@ type LoopSpec struct {
 	N          int
 	Invariants []*Clause
 	Decreases  Expr
+	Ghosts     []string
+	Updates    []GhostUpdate
+}
+
+// GhostUpdate: at the back edge, ghost array G gets G[Key] = Val (when Cond holds).
+type GhostUpdate struct {
+	Ghost    string
+	Key, Val Expr
+	Cond     Expr
+	Text     string
 }
 
 type LetBind struct {
@@ -585,7 +595,7 @@ var clauseKeywords = map[string]bool{
 	"emits": true, "complete": true, "disjoint": true, "loop": true, "invariant": true,
 	"calls": true, "property": true, "guarded_by": true, "lock_level": true, "immutable": true,
 	"confined": true, "let": true, "trusted": true, "lemma": true, "decreases": true, "noinline": true,
-	"with": true, "panics": true,
+	"with": true, "panics": true, "ghost": true, "update": true,
 }
 
 type rawClause struct {
@@ -888,6 +898,27 @@ func parseSpecFile(path string, pkg string) (sf *SpecFile, err error) {
 			curC.With = append(curC.With, &Clause{Kind: "with", Text: body, X: mustExpr(body, where), Tags: tags, N: len(curC.With) + 1})
 		case "decreases":
 			curL.Decreases = mustExpr(rc.text, where)
+		case "ghost":
+			if curL == nil {
+				panic(fmt.Errorf("%s: ghost outside loop", where))
+			}
+			curL.Ghosts = append(curL.Ghosts, strings.FieldsFunc(rc.text, func(r rune) bool { return r == ',' || r == ' ' })...)
+		case "update":
+			if curL == nil {
+				panic(fmt.Errorf("%s: update outside loop", where))
+			}
+			t := rc.text
+			gu := GhostUpdate{Text: t}
+			if k := strings.Index(t, " when "); k >= 0 {
+				gu.Cond = mustExpr(t[k+6:], where)
+				t = t[:k]
+			}
+			eq := strings.Index(t, "] =")
+			lb := strings.Index(t, "[")
+			gu.Ghost = strings.TrimSpace(t[:lb])
+			gu.Key = mustExpr(t[lb+1:eq], where)
+			gu.Val = mustExpr(t[eq+3:], where)
+			curL.Updates = append(curL.Updates, gu)
 		case "modifies":
 			cur.HasMod = true
 			if strings.TrimSpace(rc.text) == "nothing" {
